@@ -342,6 +342,13 @@ theorem emitExec_neutral (s : St) (a b n : Nat) (off : Int) (ev : Nat) : Neutral
   wp_auto
 macro_rules | `(tactic| wp_prim) => `(tactic| with_reducible refine wp_mono (emitExec_neutral _ _ _ _ _ _) ?_ (fun _ h => QuietImp.imp _ h))
 
+theorem checkCount_read (n m : Nat) : wp (checkCount n m) (fun _ => True) Quiet := by
+  unfold checkCount
+  split
+  · simp [Quiet]
+  · trivial
+macro_rules | `(tactic| wp_prim) => `(tactic| with_reducible refine wp_mono (checkCount_read _ _) ?_ (fun _ h => QuietImp.imp _ h))
+
 theorem emitSwitchOp_neutral (s : St) : Neutral s s.emitSwitchOp := by
   unfold St.emitSwitchOp
   exact emitOpBytes_neutral _ _ _
